@@ -32,6 +32,7 @@ var errInjected = errors.New("injected write failure")
 type failWriter struct {
 	limit  int
 	short  bool
+	once   bool // transient fault: only the Write that crosses the limit fails, later ones succeed
 	got    bytes.Buffer
 	failed bool
 	calls  int
@@ -39,11 +40,11 @@ type failWriter struct {
 
 func (f *failWriter) Write(p []byte) (int, error) {
 	f.calls++
-	if f.failed {
+	if f.failed && !f.once {
 		return 0, errInjected
 	}
 	room := f.limit - f.got.Len()
-	if len(p) <= room {
+	if len(p) <= room || (f.failed && f.once) {
 		f.got.Write(p)
 		return len(p), nil
 	}
@@ -144,8 +145,9 @@ func (c *c12Case) Run(ctx *core.Ctx) {
 			continue
 		}
 		offsets++
-		for _, short := range []bool{false, true} {
-			fw := &failWriter{limit: k, short: short}
+		for style := 0; style < 3; style++ {
+			short := style == 1
+			fw := &failWriter{limit: k, short: short, once: style == 2}
 			ctx.Eval(2)
 			e := c12CallOn(bg, shared, p, c.Entry, fw)
 			// history: a healthy call right after the failed one gets exactly the reference bytes
@@ -154,7 +156,7 @@ func (c *c12Case) Run(ctx *core.Ctx) {
 				ctx.Violation("output-after-failed-write", where, c.Prog, fmt.Sprintf("program %s: after a writer failure at offset %d of %d the next healthy render on the same engine returned err=%v and %q, want %q", c.Prog, k, n, e2, clip(after.got.String(), 300), clip(ref.String(), 300)))
 				return
 			}
-			if !bytes.HasPrefix(ref.Bytes(), fw.got.Bytes()) {
+			if !fw.once && !bytes.HasPrefix(ref.Bytes(), fw.got.Bytes()) {
 				ctx.Violation("foreign-bytes-before-failure", where, c.Prog, fmt.Sprintf("offset %d: the failing writer received %q, not a prefix of %q", k, clip(fw.got.String(), 200), clip(ref.String(), 200)))
 				return
 			}
@@ -166,6 +168,9 @@ func (c *c12Case) Run(ctx *core.Ctx) {
 				style := "refuse"
 				if short {
 					style = "short-write"
+				}
+				if fw.once {
+					style = "transient"
 				}
 				ctx.Violation("writer-failure-swallowed", where, style, fmt.Sprintf("program %s: writer failed at offset %d of %d (%s) but the render returned nil", c.Prog, k, n, style))
 				return
@@ -189,7 +194,7 @@ func init() {
 	core.Register(&core.Check{
 		ID:    "C12",
 		Level: "fault_enumeration",
-		Rule: "every catalogue program (25 succeeding, 6 failing early/late/in include/in layout) x entry point {Load+Render, RenderFile, RenderString, RenderByte, RenderReader} x fault {none, cancelled context, writer failing at EVERY byte offset 0..len(output)-1 in two styles: refusing the write, short write + error}. " +
+		Rule: "every catalogue program (25 succeeding, 6 failing early/late/in include/in layout) x entry point {Load+Render, RenderFile, RenderString, RenderByte, RenderReader} x fault {none, cancelled context, writer failing at EVERY byte offset 0..len(output)-1 in three styles: refusing the write and every later one, short write + error, refusing that one write only (a transient fault)}. " +
 			"oracle: healthy writer: error => 0 bytes received, nil => exactly the reference bytes; failing writer: non-nil error, the bytes it accepted are a prefix of the reference, and the next healthy render on the same long-lived engine returns exactly the reference bytes; cancelled context: error and 0 bytes. non-trivial = all; distinct = (program, entry point)",
 		Bounds:      map[string]string{"quick": "all offsets of all programs; for the two programs with more than 4096 bytes of output the first and last 512 offsets and every 97th in between", "thorough": "all offsets of all programs"},
 		Assumptions: []string{"writers that return n < len(p) with a nil error are out of scope"},
